@@ -22,16 +22,17 @@ import (
 // Key is a public key projected to what Model/Program.v's pubkey record holds, plus (for pool
 // keys) the private key and the signature scheme it signs with.
 type Key struct {
-	Pub    keypair.PublicKey
-	Pri    keypair.PrivateKey
-	Scheme s.SignatureScheme
-	Ty     uint64
-	Curve  uint64 // curve label for ECDSA/SM2 keys, 0 otherwise
-	X, Y   *big.Int
-	Ser    []byte
-	Weak   bool   // EC key whose point is not on its curve
-	Name   string // Coq name when the key is in the pool
-	Kind   string
+	Pub      keypair.PublicKey
+	Pri      keypair.PrivateKey
+	Scheme   s.SignatureScheme
+	Ty       uint64
+	Curve    uint64 // curve label for ECDSA/SM2 keys, 0 otherwise
+	X, Y     *big.Int
+	Ser      []byte
+	Weak     bool   // EC key whose point is not on its curve and on which the curve arithmetic panics
+	OffCurve bool   // EC key whose point is not on its curve (incl. (0, 0))
+	Name     string // Coq name when the key is in the pool
+	Kind     string
 }
 
 // KeyOf projects a keypair.PublicKey (panics on an unknown dynamic type, like GetKeyType).
@@ -47,7 +48,10 @@ func KeyOf(pub keypair.PublicKey) *Key {
 		k.Curve = uint64(l)
 		k.X, k.Y = t.X, t.Y
 		k.Kind = fmt.Sprintf("ec-alg%d-curve%d", t.Algorithm, l)
-		k.Weak = !onCurve(t.PublicKey)
+		k.OffCurve = !onCurve(t.PublicKey)
+		// (0, 0) is not on the curve either, but Go's generic curve code takes it for the point at
+		// infinity and does not panic: it is not a [weak] key of the model
+		k.Weak = k.OffCurve && !(t.X.Sign() == 0 && t.Y.Sign() == 0)
 	case ed25519.PublicKey:
 		k.Ty = uint64(keypair.PK_EDDSA)
 		k.X = new(big.Int).SetBytes([]byte(t))
